@@ -293,24 +293,30 @@ def copy_file(src: pathlib.Path, dst: pathlib.Path,
 
         # workaround to prevent permission error when writing to zip on network
         # https://github.com/fumitoh/modelx/issues/82
+        # Only the opening of the archive is tried again: once the archive
+        # has been written to, a failed write or close leaves it without
+        # central directory, and re-opening it in "a" mode would start
+        # a new archive behind the damaged one, dropping all members.
         retries = 3
         for i in range(retries):
             try:
-                with zipfile.ZipFile(root_dst, mode="a",
-                                     **_compress_kwargs(compression, compresslevel)
-                                     ) as zip_dst:
-                    if not _archive_exists(arc_dst, zip_dst):
-                        if is_valid_archive_path(arc_dst, zip_dst):
-                            zip_dst.write(src, arc_dst)
-                        else:
-                            raise ValueError("invalid archive '%s'" % arc_dst)
+                zip_dst = zipfile.ZipFile(
+                    root_dst, mode="a",
+                    **_compress_kwargs(compression, compresslevel))
             except PermissionError:
                 if i < retries - 1:
-                    warnings.warn("writing to '%s' failed, retrying...")
+                    warnings.warn(
+                        "writing to '%s' failed, retrying..." % root_dst)
                     time.sleep(1)
                     continue
                 else:
                     raise
+            with zip_dst:
+                if not _archive_exists(arc_dst, zip_dst):
+                    if is_valid_archive_path(arc_dst, zip_dst):
+                        zip_dst.write(src, arc_dst)
+                    else:
+                        raise ValueError("invalid archive '%s'" % arc_dst)
             break
 
     elif not root_src and not root_dst:
